@@ -12,7 +12,7 @@ From Coq Require Import NArith List Bool.
 From MZ.lib Require Import Mach.
 From MZ.spec Require Import DeflateSpec.
 From MZ.model Require Import DeflateCore Oracle.
-From MZ.proofs Require Import StoredSpec StoredModel StoredStream StoredPrefix.
+From MZ.proofs Require Import StoredSpec StoredModel StoredStream StoredPrefix StoredFlushPoint.
 Import ListNotations.
 Local Open Scope N_scope.
 
@@ -49,6 +49,52 @@ Example C12_a_flush_point :
   | Ret (Some (c, _, acc, n)) =>
       c_finished c = false /\ c_pending c = [] /\ c_total_bytes c = 0 /\ c_la_size c = 0 /\ n = 100 /\
       N.of_nat (length acc) = 2 + 5 + 100 + 5
+  | _ => False
+  end.
+Proof. vm_compute. repeat split; reflexivity. Qed.
+
+(* ... and the same in API terms, with no hypothesis on the compressor's internals: (1) a call that reports Okay and
+   has left output space unused leaves nothing pending ("no earlier output is still pending (the previous call left
+   output space unused)"); (2) a sync or full flush requested when nothing is pending, which returns Okay with output
+   space to spare, has consumed all offered input, and everything emitted so far - without anything further - is
+   header ++ whole stored blocks that the specification's prefix decoder decodes, ending on a byte boundary, to
+   exactly all input supplied so far *)
+Theorem C12_level0_room_means_nothing_pending_partial :
+  forall (data : list N) (flags wb : N) sched c rest acc n m out_len f r,
+  hasf flags FLAG_RAW = true -> wb <= 15 ->
+  Forall (fun it => legal_flush (snd it)) sched -> legal_flush f ->
+  N.of_nat (length data) + 259 < 2 ^ 40 ->
+  run_calls (comp_new flags wb) data sched [] 0 = Ret (Some (c, rest, acc, n)) ->
+  compress c (firstn (N.to_nat m) rest) out_len f = Ret (CRet r) ->
+  r_status r = TOkay -> N.of_nat (length (r_out r)) < out_len ->
+  c_pending (r_comp r) = [].
+Proof. exact level0_room_means_nothing_pending. Qed.
+
+Theorem C12_level0_flush_with_room_is_a_flush_point_partial :
+  forall (data : list N) (flags wb : N) sched c rest acc n m out_len f r,
+  hasf flags FLAG_RAW = true -> wb <= 15 -> bytes_ok data ->
+  Forall (fun it => legal_flush (snd it)) sched ->
+  N.of_nat (length data) + 259 < 2 ^ 40 ->
+  run_calls (comp_new flags wb) data sched [] 0 = Ret (Some (c, rest, acc, n)) ->
+  c_pending c = [] ->
+  f = TF_SYNC \/ f = TF_FULL ->
+  compress c (firstn (N.to_nat m) rest) out_len f = Ret (CRet r) ->
+  r_status r = TOkay -> N.of_nat (length (r_out r)) < out_len ->
+  r_in r = N.of_nat (length (firstn (N.to_nat m) rest)) /\
+  n + r_in r <= N.of_nat (length data) /\
+  exists body blocks,
+    acc ++ r_out r = (if c_block_index (r_comp r) =? 0 then [] else hdr flags wb) ++ body /\
+    prefix_spec body = (Some (firstn (N.to_nat (n + r_in r)) data), 8 * N.of_nat (length body), true, false, blocks).
+Proof. exact level0_flush_point_api. Qed.
+
+Example C12_a_flush_with_room :
+  match run_calls (comp_new 528384 15) (repeat 66 100) [(40, 1000, 0)] [] 0 with
+  | Ret (Some (c, rest, acc, n)) =>
+      c_pending c = [] /\
+      match compress c (firstn 60 rest) 1000 TF_SYNC with
+      | Ret (CRet r) => r_status r = TOkay /\ N.of_nat (length (r_out r)) < 1000 /\ r_in r = 60
+      | _ => False
+      end
   | _ => False
   end.
 Proof. vm_compute. repeat split; reflexivity. Qed.
